@@ -78,7 +78,7 @@ def _run(ck, data, fs, par, refs, sel, DFk=1.0, reuse=None):
         if base == "FDD":
             r = sut(setup.mpe, "a", sel_freq=list(sel), DF=par["DFl"] * df)
         else:
-            r = sut(setup.mpe, "a", sel_freq=list(sel), DF1=par["DFl"] * df, DF2=4 * par["DFl"] * df)
+            r = sut(setup.mpe, "a", sel_freq=list(sel), DF1=par["DFl"] * df, DF2=4 * par["DFl"] * df, npmax=par.get("npmax", 20))
         if raised(r):
             return r
         out["Fn"] = np.asarray(res.Fn, dtype=float).reshape(-1)
@@ -188,6 +188,12 @@ def meta_case(draw, ck):
          "perm_seed": draw(st.integers(0, 2**16)), "refsub": draw(st.booleans())}
     if ck.startswith("pLSCF"):
         c["ordmax"] = draw(st.integers(2, 8))
+    if ck.split("_")[0] in ("EFDD", "FSDD"):
+        # the damping fit needs npmax correlation extrema inside half a segment: long segments, few extrema, no very low modes
+        c["sys"] = draw(modal.system(1, 3, nch, nch, xi_lo=0.005, xi_hi=0.04, fr_lo=0.12, fr_hi=0.4))
+        c["nxseg"] = draw(st.sampled_from([512, 1024]))
+        c["N"] = draw(st.integers(4000, 6000))
+        c["npmax"] = draw(st.sampled_from([6, 10, 20]))
     if ms:
         # the FDD pick needs a second singular value: at least two reference channels
         c["nref"] = 2 if ck.split("_")[0] in ("FDD", "EFDD") else draw(st.integers(1, 2))
@@ -228,6 +234,7 @@ def judge_meta(case):
     ms = ck.endswith("_MS")
     S, data, refs = _build(case)
     par = {k: case[k] for k in ("nxseg", "method_SD", "pov", "br", "ordmax", "DFl")}
+    par["npmax"] = case.get("npmax", 20)
     r = len(refs) if refs is not None else (case.get("nref") if ms else S.nch)
     par["ordmax"] = max(2, min(par["ordmax"], par["br"] * r)) if ck.startswith("SSI") else par["ordmax"]
     fs = S.fs
